@@ -72,7 +72,13 @@ Definition run_fans_raw (es : list fentry) : jv :=
   JL [ jv_outcome jv_fdict (sensors_fans true es) ].
 
 Definition jv_battery (b : battery) : jv :=
-  JL [jq (bt_percent b); JZ (bt_secsleft b); jopt jbool (bt_plugged b)].
+  JL [match bt_percent b with RInt z => JZ z | RFloat q => jq q end;
+      match bt_secsleft b with
+      | RUnlimited => JC "Enum" [JB (bs "BatteryTime"); JB (bs "POWER_TIME_UNLIMITED"); JZ (-2)]
+      | RUnknown => JC "Enum" [JB (bs "BatteryTime"); JB (bs "POWER_TIME_UNKNOWN"); JZ (-1)]
+      | RSecs z => JZ z
+      end;
+      jopt jbool (bt_plugged b)].
 Definition jv_batfiles (b : batfiles) : jv :=
   JL [jfres (b_energy_now b); jfres (b_charge_now b); jfres (b_power_now b); jfres (b_current_now b);
       jfres (b_energy_full b); jfres (b_charge_full b); jfres (b_time_to_empty b); jfres (b_capacity b);
